@@ -14,6 +14,7 @@
 EXTENDS Throughput, Json, IOUtils
 
 Traces == JsonDeserialize(IOEnv.VERIF_TRACES)
+TraceTput == {-1, 0, 7, 11}
 
 VARIABLES tid, l, nev
 
@@ -34,7 +35,7 @@ Consume ==
            r == Calculate(stats, e.batch, ResetUnprocessed)
        IN /\ stats' = e.st.stats
           /\ lastOut' = e.st.out
-          /\ hist' = HistAfter([hist EXCEPT !.mode = IF e.batch[1].tput = 0 THEN 0 ELSE 1], e.batch, e.st.out)
+          /\ hist' = HistAfter([hist EXCEPT !.mode = IF e.batch[1].tput = NoTput THEN 0 ELSE 1], e.batch, e.st.out)
           /\ pending' = <<>>
           /\ act' = [name |-> "Flush"]
           /\ LET holds == [c \in L1Clauses |->
